@@ -40,7 +40,7 @@ PROP_STREAMS = {
 }
 # runs per tier (cap by wall budget as well); E2 runs are batches of scripted sequences
 TIER = {
-    "quick": {"runs": {"e1": 320, "e2": 400, "e3": 320, "e3m": 320, "e4": 480}, "budget_s": 75, "K": 2,
+    "quick": {"runs": {"e1": 400, "e2": 400, "e3": 400, "e3m": 360, "e4": 800}, "budget_s": 75, "K": 2,
               "shrink_s": 25},
     "thorough": {"runs": {"e1": 8000, "e2": 6000, "e3": 8000, "e3m": 8000, "e4": 12000}, "budget_s": 900, "K": 4,
                  "shrink_s": 120},
